@@ -49,6 +49,11 @@ func menu() []query {
 			return q.KNearestMatching(nil, qpoints[1], 5000, even(y))
 		}},
 	)
+	// a distance limit whose box covers the whole tree, with more matches than k (the search box then shrinks
+	// while the heap is full)
+	m = append(m,
+		query{"KNearest(nil,[2 2],1,100)", func(q *quadtree.Quadtree, y func()) []orb.Pointer { return q.KNearest(nil, qpoints[2], 1, 100) }},
+	)
 	for _, b := range []orb.Bound{
 		{Min: orb.Point{0, 0}, Max: orb.Point{4, 4}},
 		{Min: orb.Point{1, 1}, Max: orb.Point{2, 2}},
